@@ -392,10 +392,16 @@ func (rQuery *RunningQueryState) RestartQuery(forceRun bool) (*RunningQueryState
 }
 
 func RestartAllRunningQueries() {
+	// Don't send while holding arqMapLock: a full StateChan would block every
+	// other query that needs the lock.
 	arqMapLock.RLock()
-	defer arqMapLock.RUnlock()
-
+	rQueries := make([]*RunningQueryState, 0, len(allRunningQueries))
 	for _, rQuery := range allRunningQueries {
+		rQueries = append(rQueries, rQuery)
+	}
+	arqMapLock.RUnlock()
+
+	for _, rQuery := range rQueries {
 		restartState := &QueryStateChanData{StateName: QUERY_RESTART, Qid: rQuery.qid}
 		rQuery.StateChan <- restartState
 	}
